@@ -24,7 +24,7 @@ def table_seeded():
         mp = os.path.join(d, "meta.json")
         if not os.path.exists(mp): continue
         m = json.load(open(mp))
-        out.append("| `seeded/%s` | %s | %s | %s |" % (os.path.basename(d), m["property"], m["needs_to_manifest"].replace("|", "/"), m["caught_by"].replace("|", "/")))
+        out.append("| `seeded/%s` | %s | %s | %s |" % (os.path.basename(d), m["property"], m["needs_to_manifest"].replace("|", "¦"), m["caught_by"].replace("|", "¦")))
     return "\n".join(out)
 def table_harmless():
     out = ["| refactor (independent sub-agent) | patches | checks that must stay quiet | result |", "|---|---|---|---|"]
@@ -32,7 +32,7 @@ def table_harmless():
         mp = os.path.join(d, "meta.json")
         if not os.path.exists(mp): continue
         m = json.load(open(mp))
-        out.append("| `harmless/%s`: %s | %s | %s | %s |" % (os.path.basename(d), m["summary"].replace("|", "/"), ", ".join((x if isinstance(x, str) else x["file"] + " (C16: caught)") for x in m["patches"]), ", ".join(m["properties"]), m["result"]))
+        out.append("| `harmless/%s`: %s | %s | %s | %s |" % (os.path.basename(d), m["summary"].replace("|", "¦"), ", ".join((x if isinstance(x, str) else x["file"] + " (C16: caught)") for x in m["patches"]), ", ".join(m["properties"]), m["result"]))
     return "\n".join(out)
 def table_cov():
     path = os.path.join(V, "selftest", "coverage.json")
@@ -50,19 +50,24 @@ def table_mut():
     if not os.path.exists(path):
         return "(not run)"
     rows = json.load(open(path))
-    out = ["| file | mutants | do not compile | killed by the reduced workload | killed by the quick tier only | survived |", "|---|---|---|---|---|---|"]
-    for f in sorted(set(r["file"] for r in rows)):
-        rs = [r for r in rows if r["file"] == f]
+    out = ["| file, operator set | mutants | do not compile | killed by the reduced workload | killed by the quick tier only | survived |", "|---|---|---|---|---|---|"]
+    for f in sorted(set((r["file"], r.get("ops", "token")) for r in rows)):
+        rs = [r for r in rows if (r["file"], r.get("ops", "token")) == f]
+        f = "%s, %s" % f
         c = lambda v: sum(1 for r in rs if r["verdict"] == v)
-        out.append("| `%s` | %d | %d | %d | %d | %d |" % (f, len(rs), c("does not compile"), c("killed (reduced workload)"), c("killed (quick tier)"), c("SURVIVED")))
+        out.append("| `%s` | %d | %d | %d | %d | %d |" % (f.replace(", ", "`, `"), len(rs), c("does not compile"), c("killed (reduced workload)"), c("killed (quick tier)"), c("SURVIVED")))
     out.append("")
-    out.append("Survivors, each reviewed by hand:")
+    out.append("Survivors, each reviewed by hand (grouped by the reason they are equivalent):")
     out.append("")
-    out.append("| file:line | edit | review |")
+    out.append("| survivors | example (file:line, edit) | review |")
     out.append("|---|---|---|")
+    groups = {}
     for r in rows:
         if r["verdict"] == "SURVIVED":
-            out.append("| `%s`:%d | `%s` -> `%s` | %s |" % (os.path.basename(r["file"]), r["line"], r["from"][:70].replace("|", "/"), r["to"][:70].replace("|", "/"), r.get("review", "NOT REVIEWED")))
+            groups.setdefault(r.get("review", "NOT REVIEWED"), []).append(r)
+    for rev, rs in groups.items():
+        r = rs[0]
+        out.append("| %d | `%s`:%d `%s` -> `%s` | %s |" % (len(rs), os.path.basename(r["file"]), r["line"], r["from"][:60].replace("|", "¦"), r["to"][:60].replace("|", "¦"), rev))
     return "\n".join(out)
 
 
